@@ -39,6 +39,9 @@ def run(rep, tier):
         common.guarded(rep, "C03.8", c03.c03_8, rep, ix, M, cc, br)
         common.guarded(rep, "C03.9", c03.c03_9, rep, ix, M, cc, br)
     common.guarded(rep, "C03.4", c03.c03_4, rep, ix, M)
+    # the value delivered for an argument is the evaluator's result, unconverted and unsimplified (shared with C02)
+    from . import c02
+    common.guarded(rep, "C02.3", c02.c02_3, rep, ix, M)
     # a statement in a loop body is evaluated anew in every iteration: its transforms are built from that iteration's values
     from . import c06
     common.guarded(rep, "C06.1", c06.c06_1, rep, ix, M.G)
